@@ -200,7 +200,7 @@ def monitorOp (prop : String) (seen : Seen) (v : OpView) (next : Option OpView) 
   | "C02" =>
     -- a call that fails because it waits for one reply more than the server owes it: every group of the call's script was
     -- played, nothing is unread, and the last thing the client did was to ask the transport for another line
-    let core := impl.filter fun t => !(t.startsWith "st:" || t.startsWith "srv:" || t.startsWith "played:" || t.startsWith "peer:" || t.startsWith "sink:" || t.startsWith "end:")
+    let core := impl.filter fun t => !(t.startsWith "st:" || t.startsWith "srv:" || t.startsWith "played:" || t.startsWith "peer:" || t.startsWith "sink:" || t.startsWith "end:" || t.startsWith "cs:")
     let askedForMore := match core.reverse with
       | t :: "rl" :: _ => t.startsWith "thr:"
       | _ => false
